@@ -402,6 +402,15 @@ func runC08(c *Ctx) {
 		pl.deepScenarios = deepScenarios(seeds, modes, fits)
 		pl.deepDev, pl.shards = 2, 16
 	}
+	// a stagnating population whose species hold members resembling another species (delta coding leaves the species
+	// below the top two in place with quota 0 while babies nearest to them arrive)
+	for _, cfg := range []int{3, 9, 0, 7} {
+		for _, fit := range []int{2, 5, 6} {
+			for _, pol := range []string{"M", "A"} {
+				pl.scenarios = append(pl.scenarios, EpochScenario{Seed: "hbx", Cfg: cfg, Fit: fit, Policy: pol, Mode: "perspecies", Epochs: 3})
+			}
+		}
+	}
 	runEpochPlan(c, pl)
 	c.States = int64(len(c.distinct))
 	c.Rule = fmt.Sprintf("(a) family of %d structurally different genomes; existing populations = every way to pre-speciate an ordered choice of up to %d members (singleton and shared species), under two id layouts (contiguous; sparse with a higher high-water mark); batches = every ordered arrangement of up to %d further members (plus a repeated member); thresholds %v (and the same batch in two calls with the options' threshold changed in between); both distance methods; three coefficient rows (rotated); the real speciate is followed organism by organism by a list-of-lists reference using the library's distance (any minimiser accepted on ties), final species lists compared. (b) the same lock-step reference on the babies of every epoch of E1 multi-epoch runs (species-wise driving, all executions within max_deviations of the base policies) and on the populations built by NewPopulation / NewPopulationRandom / ReadPopulation. states = distinct existing populations + distinct run end states, transitions = organisms placed + populations produced", fam, maxEx, maxBatch, c08Thresholds)
